@@ -229,6 +229,19 @@ func runVarCase(c *Ctx, ops []string) {
 						nv := mvalOf(e)
 						*model[k].elem[i] = *nv
 					}
+				case "mid2":
+					// mutate an element of an element in place: a clone must be isolated at every depth
+					k := idx(p[1])
+					i := idx(p[2])
+					j := idx(p[3])
+					e := decVariant(p[4])
+					slots[k].GetByIndex(i).GetByIndex(j).Assign(e)
+					if model[k].typ == variants.Array && i >= 0 && i < len(model[k].elem) {
+						in := model[k].elem[i]
+						if in.typ == variants.Array && j >= 0 && j < len(in.elem) {
+							*in.elem[j] = *mvalOf(e)
+						}
+					}
 				case "gidx":
 					k := idx(p[1])
 					out = encVariant(slots[k].GetByIndex(idx(p[2])))
@@ -296,7 +309,7 @@ func runVarCase(c *Ctx, ops []string) {
 func propC20(c *Ctx) {
 	scalars := []string{"n", "i0", "i-5", "i9223372036854775807", "l7", "l-9223372036854775808", "f3fc00000", "fNaN", "f80000000", "f00000000",
 		"d3ff8000000000000", "dNaN", "d0000000000000000", "s", "s97.98", "s233", "b1", "b0", "t0.0", "t1600000000.500", "p1500000000", "p0"}
-	arrays := []string{"a[]", "a[i1/i2]", "a[s97/n/b1]", "a[a[i1]/i2]", "a[d3ff8000000000000]", "a[f80000000/d0000000000000000]"}
+	arrays := []string{"a[]", "a[i1/i2]", "a[a[i1/i2]/a[s97]]", "a[s97/n/b1]", "a[a[i1]/i2]", "a[d3ff8000000000000]", "a[f80000000/d0000000000000000]"}
 	newKinds := func() string {
 		switch c.Rng.Intn(14) {
 		case 0:
@@ -362,7 +375,11 @@ func propC20(c *Ctx) {
 					for strings.Contains(e, "NaN") {
 						e = scalars[c.Rng.Intn(len(scalars))]
 					}
-					ops[j] = fmt.Sprintf("midx:%d:%d:%s", k, c.Rng.Intn(5), e)
+					if c.Rng.Intn(3) == 0 {
+						ops[j] = fmt.Sprintf("mid2:%d:%d:%d:%s", k, c.Rng.Intn(3), c.Rng.Intn(3), e)
+					} else {
+						ops[j] = fmt.Sprintf("midx:%d:%d:%s", k, c.Rng.Intn(5), e)
+					}
 				} else {
 					ops[j] = fmt.Sprintf("gidx:%d:%d", k, c.Rng.Intn(6)-1)
 				}
@@ -388,6 +405,9 @@ func propC20(c *Ctx) {
 	runVarCase(c, []string{"set:0:a[i1/i2]", "cln:1:0", "midx:1:0:i9", "obs:0", "obs:1"})
 	runVarCase(c, []string{"set:0:a[i1]", "sidx:0:3:i5", "midx:0:1:i7", "obs:0", "set:1:a[]", "sidx:1:2:b1", "obs:1"})
 	runVarCase(c, []string{"set:0:a[a[i1]/i2]", "cln:1:0", "gidx:1:0", "midx:1:1:s97", "eq:0:1", "obs:0"})
+	// ... at every depth
+	runVarCase(c, []string{"set:0:a[a[i1/i2]/i3]", "cln:1:0", "mid2:1:0:0:s99", "obs:0", "obs:1", "eq:0:1"})
+	runVarCase(c, []string{"set:0:a[a[a[i1]]/i3]", "cln:1:0", "cln:2:1", "mid2:2:0:0:i5", "obs:0", "obs:1", "obs:2"})
 	// D30 (known finding): an unsigned host value above MaxInt64 does not fit the Long it is mapped to
 	runVarCase(c, []string{"new:0:uint:18446744073709551615", "obs:0"})
 	runVarCase(c, []string{"new:0:uint:9223372036854775808", "obs:0"})
